@@ -6,6 +6,9 @@
 mod ctl;
 mod drivers;
 mod util;
+mod gearref;
+mod merkleref;
+mod intern;
 
 fn main() {
     let args: Vec<String> = std::env::args().collect();
@@ -17,6 +20,7 @@ fn main() {
     let r = match args[1].as_str() {
         "singleflight" => drivers::singleflight::run(&a),
         "chunkcache" => drivers::chunkcache::run(&a),
+        "upload" => drivers::upload::run(&a),
         other => {
             eprintln!("unknown driver {other}");
             std::process::exit(2);
